@@ -62,7 +62,19 @@ pub enum HookMode {
 pub struct HookStats {
     pub reached: RefCell<BTreeMap<&'static str, u64>>,
     pub yielded: Cell<u64>,
+    pub total: Cell<u64>,
+    /// fired once when the livelock budget is exceeded; the case's main future
+    /// selects on the receiving end and abandons the run
+    pub abort: RefCell<Option<tokio::sync::oneshot::Sender<()>>>,
+    pub livelocked: Cell<bool>,
 }
+
+/// Marker of the deterministic livelock budget: a case whose engine passes
+/// more hook points than this is reported as "never completes" (a count, not
+/// a wall clock; ordinary cases pass a few thousand to a few hundred thousand
+/// points).
+pub const LIVELOCK_MARKER: &str = "VERIF_LIVELOCK_BUDGET_EXCEEDED";
+pub const LIVELOCK_BUDGET: u64 = 300_000;
 
 /// Install the hook controller for the calling thread. Returns a guard that
 /// removes it again.
@@ -73,8 +85,23 @@ pub fn install_controller(
     stats: Rc<HookStats>,
 ) -> ControllerGuard {
     use qbice::engine::verif::{PointKind, set_controller};
+    let budget = std::env::var("VERIF_LIVELOCK_BUDGET")
+        .ok()
+        .and_then(|s| s.parse().ok())
+        .unwrap_or(LIVELOCK_BUDGET);
     set_controller(Some(Rc::new(move |tag: &'static str, kind: PointKind| {
         *stats.reached.borrow_mut().entry(tag).or_insert(0) += 1;
+        let total = stats.total.get() + 1;
+        stats.total.set(total);
+        if total > budget {
+            // do not panic here: the request may sit under thousands of nested
+            // engine tasks; signal the case's main future instead
+            stats.livelocked.set(true);
+            if let Some(tx) = stats.abort.borrow_mut().take() {
+                let _ = tx.send(());
+            }
+            return true;
+        }
         let y = match mode.get() {
             HookMode::Off => false,
             HookMode::Interleave => match tape.next() {
